@@ -185,7 +185,6 @@ def limitReport (carrier : Carrier) (m : Module) (conversion : Name) (dt : DataT
   | none => [.limitSpecial item block]
   | some cl =>
     let valid := match carrier with
-      | .typedefMeasurement => limitsValidStrict (lower, upper) cl
       | _ => limitsValid (lower, upper) cl
     if valid then [] else [.limit item block lower upper cl.1 cl.2]
 
